@@ -1,0 +1,26 @@
+//go:build verif
+
+package dict
+
+import (
+	"seehuhn.de/go/pdf"
+	"seehuhn.de/go/pdf/font/encoding"
+	"seehuhn.de/go/postscript/cid"
+)
+
+// This file is only compiled with the build tag "verif".  It exposes the
+// unexported width-array encoders to an external verification harness; it
+// adds no behaviour of its own.
+
+// VerifEncodeCompositeWidths calls encodeCompositeWidths.
+func VerifEncodeCompositeWidths(widthMap map[cid.CID]float64) pdf.Array {
+	return encodeCompositeWidths(widthMap)
+}
+
+// VerifSetSimpleWidths calls setSimpleWidths.
+func VerifSetSimpleWidths(w *pdf.Writer, fontDict pdf.Dict, ww []float64, enc encoding.Simple, defaultWidth float64) ([]pdf.Object, []pdf.Reference) {
+	return setSimpleWidths(w, fontDict, ww, enc, defaultWidth)
+}
+
+// VerifMoreThanTen calls moreThanTen.
+func VerifMoreThanTen(a pdf.Array) bool { return moreThanTen(a) }
